@@ -46,7 +46,7 @@ func fmtCounts(m map[string]int) string {
 func statTri(p *pw.Path) tri {
 	out := triUnknown
 	for _, ev := range p.Events {
-		if ev.Kind == pw.EvFieldRead && ev.Field != nil && (ev.Field.Name() == "Stat" || ev.Field.Name() == "stat") {
+		if ev.Kind == pw.EvFieldRead && ev.Field != nil && (fname(ev.Field) == "Stat" || fname(ev.Field) == "stat") {
 			switch nilTri(p, ev.Value) {
 			case triTrue:
 				return triFalse
@@ -113,7 +113,7 @@ func (c *Ctx) c18Wiring() {
 			wired := false
 			statsReads := map[*pw.Val]bool{}
 			for _, ev := range p.Events {
-				if ev.Kind == pw.EvFieldRead && ev.Field != nil && ev.Field.Name() == "Stats" && ev.Value != nil {
+				if ev.Kind == pw.EvFieldRead && ev.Field != nil && fname(ev.Field) == "Stats" && ev.Value != nil {
 					statsReads[ev.Value] = true
 				}
 			}
@@ -121,10 +121,10 @@ func (c *Ctx) c18Wiring() {
 				for v != nil && v.Kind == pw.KConv {
 					v = v.Src
 				}
-				return v != nil && (statsReads[v] || v.Kind == pw.KField && v.Field != nil && v.Field.Name() == "Stats")
+				return v != nil && (statsReads[v] || v.Kind == pw.KField && v.Field != nil && fname(v.Field) == "Stats")
 			}
 			for _, ev := range p.Events {
-				if ev.Kind == pw.EvFieldWrite && ev.Field != nil && strings.EqualFold(ev.Field.Name(), "stat") {
+				if ev.Kind == pw.EvFieldWrite && ev.Field != nil && strings.EqualFold(fname(ev.Field), "stat") {
 					wired = isStats(ev.Value) // the last write counts
 				}
 			}
@@ -384,7 +384,7 @@ func (c *Ctx) c18Failover(fo *FO) {
 			}
 			st := triUnknown
 			for _, ev := range evs {
-				if ev.Kind == pw.EvFieldRead && ev.Field != nil && ev.Field.Name() == "stat" {
+				if ev.Kind == pw.EvFieldRead && ev.Field != nil && fname(ev.Field) == "stat" {
 					switch nilTri(fp, ev.Value) {
 					case triTrue:
 						st = triFalse
